@@ -416,12 +416,7 @@ CHECK_DEADLOCK FALSE
 	res := c.runTLC(TLCOpts{Module: "Trace_Varint", Cfg: cfg, Purpose: "trace of real encodings", Workers: 1, Env: []string{"VERIF_TRACE=" + path}, Timeout: 30 * time.Minute,
 		Constants: fmt.Sprintf("%d real encodings", lines)})
 	if res.Violated != "" {
-		ms := reTraceL.FindAllStringSubmatch(res.ErrorText, -1)
-		lineNo := 0
-		if len(ms) > 0 {
-			fmt.Sscan(ms[len(ms)-1][1], &lineNo)
-			lineNo--
-		}
+		lineNo := res.LastL - 1
 		keep := filepath.Join(verifRoot, "replays", fmt.Sprintf("%s-varint-trace-%d.ndjson", c.Prop, c.Seed))
 		os.MkdirAll(filepath.Dir(keep), 0o755)
 		copyFile(path, keep)
